@@ -85,6 +85,17 @@ def inputs(rng, name, tier, n):
             for pw in ("\u20acab", "\U0001f511key", H.pw_text(rng, 5, (2, 3)), H.pw_bytes(rng, rng.choice([7, 23, 71, 72, 73, 100])),
                        H.pw_bytes(rng, 9, "high")):
                 out.append((dict(ident=ident, rounds=4, salt=H.gen_salt(h, rng, 22)), pw, "text" if isinstance(pw, str) else "binary"))
+    if "os_crypt" in getattr(h, "backends", ()) and slist:
+        # lengths the host's crypt() may refuse (libxcrypt: 512 bytes and more): the other backends take them, so must this one
+        lowest = min(s_.get("rounds") or 0 for s_ in slist)
+        per_ident = {}
+        for s_ in slist:
+            if (s_.get("rounds") or 0) == lowest:
+                per_ident.setdefault(s_.get("ident"), s_)
+        for cheap in per_ident.values():
+            for ln in (511, 512, 513, 1000, 4096):
+                out.append((cheap, H.pw_bytes(rng, ln, "ascii"), "long-ascii"))
+            out.append((cheap, H.pw_text(rng, 300), "long-text"))
     for k, st in enumerate(slist[:n]):
         ln = H.C02_LENGTHS[(k * 5 + len(name)) % len(H.C02_LENGTHS)]
         kind = ("ascii", "binary", "high", "text")[k % 4]
